@@ -72,9 +72,12 @@ ReadBack == Terminated =>
 EnvelopeOnRef == Ref.ok => Ref.hdr + Ref.len <= Len(B) /\ Ref.hdr >= 2
 
 \* shape labels used in finding keys: by identifier form for table/identifier faults, by length form for spans
-TagShape == IF st.tag \in {"long-uni34", "long-uni-3bytes"} THEN "long-form-universal-tag"
-            ELSE IF st.tag \in {"long-uni5", "long-ctx128", "long-unterminated"} THEN "long-form-tag" ELSE "short-tag"
-LenShape == IF st.len \in {"s0", "s3", "s127"} THEN (IF Ref.ok THEN "short-form-length" ELSE "short-form-length-truncated")
+TagShape == IF st.tag \in {"long-uni34", "long-uni-3bytes", "long-unterminated"} THEN "long-form-universal-tag"
+            ELSE IF st.tag \in {"long-uni5", "long-ctx128"} THEN "long-form-tag" ELSE "short-tag"
+\* (read off the bytes, not off the generator's intent: an unterminated identifier shifts everything)
+IdEnd == IF Len(B) >= 2 /\ B[1] % 32 = 31 THEN TagEnd(B, 2) ELSE 1
+ShortFormLen == IdEnd # 0 /\ IdEnd + 1 <= Len(B) /\ B[IdEnd + 1] < 128
+LenShape == IF ShortFormLen THEN (IF Ref.ok THEN "short-form-length" ELSE "short-form-length-truncated")
             ELSE IF Ref.ok THEN "long-form-length" ELSE "long-form-length-bad"
 Emit == PrintT(ToJson([g |-> "asn", in |-> B, shape |-> [oob |-> TagShape, span |-> LenShape, term |-> LenShape], tag |-> st.tag, len |-> st.len, pay |-> st.pay,
                         ref |-> Ref]))
